@@ -2,6 +2,7 @@ package engine
 
 import (
 	"fmt"
+	"go/ast"
 	"go/types"
 	"math/big"
 	"runtime/debug"
@@ -380,6 +381,17 @@ func (p *Program) VerifyFunc(c *Contract) (res *FuncResult) {
 		}
 		if en.Src == "true" {
 			continue // schema slot left empty for this type
+		}
+		// vacuity probe for a conditional postcondition `A ==> B`: some normal exit satisfies A
+		if ce, ok := en.Expr.(*ast.CallExpr); ok && exprString(ce.Fun) == "imp" && len(ce.Args) == 2 && len(normal) > 0 {
+			var calts []*Term
+			for _, e := range normal {
+				penv := ex.postEnv(env, e, fn)
+				penv.bindLets(c, true)
+				calts = append(calts, And(pcOf(e), penv.termBool(ce.Args[0])))
+			}
+			po := mk(fmt.Sprintf("cover.post.%d", i+1), en.Tags, "sat", "the case of the postcondition is reachable: "+exprString(ce.Args[0]), Or(calts...))
+			po.Probe = true
 		}
 		if len(c.Cases) > 0 {
 			var cs []*Term
